@@ -298,6 +298,7 @@ func (c *tunnelChannel) newStream(ctx context.Context, clientStreams, serverStre
 	if err != nil {
 		return nil, err
 	}
+	verifYield("new.allocated", str.streamID)
 	err = c.stream.Send(&tunnelpb.ClientToServer{
 		StreamId: str.streamID,
 		Frame: &tunnelpb.ClientToServer_NewStream{
@@ -313,6 +314,7 @@ func (c *tunnelChannel) newStream(ctx context.Context, clientStreams, serverStre
 		c.removeStream(str.streamID)
 		return nil, err
 	}
+	verifYield("new.sent", str.streamID)
 	go func() {
 		// if context gets cancelled, make sure
 		// we shut down the stream
@@ -494,6 +496,7 @@ func (c *tunnelChannel) recvLoop() {
 				settings.Settings.SupportedProtocolRevisions, supportedRevisions))
 			return
 		}
+		verifYield("loop.revchosen", 0)
 		c.settings = settings.Settings
 	}
 	close(c.awaitSettings)
@@ -552,6 +555,7 @@ func (c *tunnelChannel) close(err error) bool {
 	if c.tearDown != nil {
 		c.tearDown(c)
 	}
+	verifYield("close.torndown", 0)
 
 	c.mu.Lock()
 	defer c.mu.Unlock()
@@ -833,7 +837,9 @@ func (st *tunnelClientStream) cancelStream(err error) {
 		// stream already closed
 		return
 	}
+	verifYield("ccancel.finished", st.streamID)
 	st.receiver.cancel()
+	verifYield("ccancel.rcancelled", st.streamID)
 	// Let server know, too.
 	go func() {
 		_ = st.stream.Send(&tunnelpb.ClientToServer{
@@ -858,9 +864,11 @@ func (st *tunnelClientStream) finishStream(err error, trailers metadata.MD) bool
 		// done already set? then RPC already finished
 		return false
 	}
+	verifYield("cfin.cas", st.streamID)
 	defer st.cancel()
 	st.ch.removeStream(st.streamID)
 	st.receiver.close()
+	verifYield("cfin.rclosed", st.streamID)
 
 	st.metaMu.Lock()
 	defer st.metaMu.Unlock()
@@ -869,11 +877,13 @@ func (st *tunnelClientStream) finishStream(err error, trailers metadata.MD) bool
 	for _, tlrs := range st.trailersTargets {
 		*tlrs = trailers
 	}
+	verifYield("cfin.trailers", st.streamID)
 	if !st.gotHeaders {
 		st.gotHeaders = true
 		close(st.gotHeadersSignal)
 	}
 	close(st.doneSignal)
+	verifYield("cfin.done", st.streamID)
 
 	return true
 }
